@@ -240,6 +240,63 @@ NOT_DECIDED = [
 ]
 
 
+# ---- deductive: Duration.fromstring combines the matched fields exactly (real code; the regular expression match is havocked) -----------
+from elementpath.datatypes import Duration as _Duration, DayTimeDuration as _DTD, YearMonthDuration as _YMD     # noqa: E402
+
+
+class _Match:
+    pass
+
+
+def fromstring_case(cls_):
+    """fields of a matched lexical form: sign (None or '-'), years, months, days, hours, minutes (non-negative integers) and seconds (a non-negative
+    decimal); absent fields are None in the real match object and contribute 0: they are modelled as present with any value >= 0."""
+    def setup(S, ex):
+        neg = S.bool('negative')
+        y, mo, d, h, mi = (S.int(n) for n in ('y', 'mo', 'd', 'h', 'mi'))
+        sec = S.dec('s')
+        text = S.str('text')
+        made = {}
+
+        def match(ex, node, a, kw):
+            return VObj(_Match, {}, name='match')
+
+        def groups(ex, node, a, kw):
+            sign = NONE
+            if ex.branch(neg.t):
+                sign = lift('-')
+            if cls_ is _DTD:
+                return VTuple([sign, NONE, NONE, d, h, mi, sec])          # the fields of the other kind did not participate in the match
+            if cls_ is _YMD:
+                return VTuple([sign, y, mo, NONE, NONE, NONE, NONE])
+            return VTuple([sign, y, mo, d, h, mi, sec])
+
+        def construct(ex, node, a, kw):
+            made['months'] = kw.get('months', VInt(0))
+            made['seconds'] = kw.get('seconds', VInt(0))
+            return VObj(_Match, {'months': made['months'], 'seconds': made['seconds']}, name='duration')
+        hooks = {'cls.pattern.match': match, 'match.groups': groups, 'cls': construct, 'text.strip': lambda ex, node, a, kw: text}
+        return Case([VNative(cls_), text], hooks=hooks, names={'negative': neg})
+    return setup
+
+
+_FIELDS_PRE = ["y >= 0 and mo >= 0 and d >= 0 and h >= 0 and mi >= 0 and s >= 0", "s <= 9223372036854775808"]     # beyond: OverflowError (FODT0002)
+for _cls, _name in ((_Duration, 'duration'), (_DTD, 'dayTimeDuration'), (_YMD, 'yearMonthDuration')):
+    _months = "(12 * y + mo)"
+    _secs = "(86400 * d + 3600 * h + 60 * mi + s)"
+    if _cls is _Duration:
+        _post = [('months_and_seconds_are_the_exact_totals_with_the_sign',
+                  f"returned and result.months == (-{_months} if negative else {_months}) and result.seconds == (-{_secs} if negative else {_secs})")]
+    elif _cls is _DTD:
+        _post = [('seconds_are_the_exact_total_with_the_sign', f"returned and result.seconds == (-{_secs} if negative else {_secs})")]
+    else:
+        _post = [('months_are_the_exact_total_with_the_sign', f"returned and result.months == (-{_months} if negative else {_months})")]
+    CONTRACTS.append(Contract(f'Duration.fromstring.{_name}', 'C11', (lambda: _Duration.fromstring.__func__), fromstring_case(_cls),
+                              pre=_FIELDS_PRE, post=_post, native=None, expect_min_obligations=1,
+                              notes=['the regular expression match is havocked: its groups are arbitrary non-negative fields; a group that did not participate (None) '
+                                     'is modelled by the value 0 (for the two subtypes the code also rejects a participating zero field of the other kind: lexical_space_grid in C10)']))
+
+
 # ======================================================================================================================
 # BOUNDED stand-in: the timeline methods of the date/time classes (todelta, fromdelta, _compare, _operation and the
 # adjust-to-timezone helpers build and take apart datetime.datetime objects: outside the deductive subset).  Reference:
